@@ -6,4 +6,418 @@ import Cog.Builder.VeneerLemmas
 namespace Cog.Builder
 open Cog.IR
 
+/-! ### `WT` does not look at pointer identities -/
+
+mutual
+theorem valueWT_mapCells (ss : Schemas) (args : List Argument) (f : ArgCell → ArgCell) (hf : ∀ c, (f c).arg = c.arg) :
+    ∀ v : AValue, valueWT ss args (v.mapCells f) = valueWT ss args v
+  | .none => by simp [AValue.mapCells]
+  | .arg c => by simp [AValue.mapCells, valueWT, hf]
+  | .const _ => by simp [AValue.mapCells]
+  | .env t vs => by simp [AValue.mapCells, valueWT, envWT_mapCells ss args f hf t vs]
+theorem envWT_mapCells (ss : Schemas) (args : List Argument) (f : ArgCell → ArgCell) (hf : ∀ c, (f c).arg = c.arg)
+    (t : Ty) : ∀ vs : List EnvField, envWT ss args t (mapCellsEnv f vs) = envWT ss args t vs
+  | [] => by simp [mapCellsEnv]
+  | e :: es => by
+    simp [mapCellsEnv, envWT, valueWT_mapCells ss args f hf e.value, envWT_mapCells ss args f hf t es]
+end
+
+theorem assignmentWT_mapCells (ss : Schemas) (root : Ty) (args : List Argument) (f : ArgCell → ArgCell)
+    (hf : ∀ c, (f c).arg = c.arg) (a : Assignment) :
+    assignmentWT ss root args (a.mapCells f) = assignmentWT ss root args a := by
+  simp [assignmentWT, Assignment.mapCells, valueWT_mapCells ss args f hf]
+
+theorem optWT_content (ss : Schemas) (root : Ty) (o : Opt) : optWT ss root o.content = optWT ss root o := by
+  simp [optWT, Opt.content, Opt.mapCells, List.all_map, Function.comp_def,
+    assignmentWT_mapCells ss root o.args zeroCell (fun _ => rfl)]
+
+theorem WT_content (ss : Schemas) (b : Builder) : WT ss b.content = WT ss b := by
+  simp [WT, Builder.content, List.all_map, Function.comp_def, optWT_content,
+    assignmentWT_mapCells ss b.for_.ty b.constructor.args zeroCell (fun _ => rfl)]
+
+/-- builders with the same content are equally well-typed -/
+theorem WT_of_content_eq (ss : Schemas) {b b' : Builder} (h : b'.content = b.content) : WT ss b' = WT ss b := by
+  rw [← WT_content ss b', h, WT_content]
+
+theorem WTs_of_content_eq (ss : Schemas) : ∀ {bs bs' : Builders}, bs'.map Builder.content = bs.map Builder.content →
+    WTs ss bs' = WTs ss bs
+  | [], [], _ => rfl
+  | b :: bs, b' :: bs', h => by
+    simp only [List.map_cons, List.cons.injEq] at h
+    simp only [WTs, List.all_cons]
+    have ih := WTs_of_content_eq ss (bs := bs) (bs' := bs') h.2
+    simp only [WTs] at ih
+    rw [WT_of_content_eq ss h.1, ih]
+  | [], _ :: _, h => by simp at h
+  | _ :: _, [], h => by simp at h
+
+theorem WTs_renumber (ss : Schemas) (bs : Builders) (n : Nat) : WTs ss (St.renumber bs n).builders = WTs ss bs :=
+  WTs_of_content_eq ss (numberBuilders_content bs n)
+
+/-! ### what `WT` does look at -/
+
+/-- `WT` only reads the built object's type, the constructor and the options' arguments/assignments -/
+theorem WT_congr (ss : Schemas) {b b' : Builder} (h1 : b'.for_.ty = b.for_.ty) (h2 : b'.constructor = b.constructor)
+    (h3 : b'.options.map (fun o => (o.args, o.assignments)) = b.options.map (fun o => (o.args, o.assignments))) :
+    WT ss b' = WT ss b := by
+  have hopts : ∀ (l l' : List Opt), l'.map (fun o => (o.args, o.assignments)) = l.map (fun o => (o.args, o.assignments)) →
+      l'.all (optWT ss b.for_.ty) = l.all (optWT ss b.for_.ty) := by
+    intro l
+    induction l with
+    | nil => intro l' h; cases l' <;> simp_all
+    | cons o l ih =>
+      intro l' h
+      cases l' with
+      | nil => simp at h
+      | cons o' l' =>
+        simp only [List.map_cons, List.cons.injEq, Prod.mk.injEq] at h
+        simp only [List.all_cons, ih l' h.2]
+        simp [optWT, h.1.1, h.1.2]
+  simp only [WT, h1, h2, hopts _ _ h3]
+
+theorem WTs_filter (ss : Schemas) (p : Builder → Bool) (bs : Builders) (h : WTs ss bs = true) :
+    WTs ss (bs.filter p) = true := by
+  simp only [WTs, List.all_eq_true] at h ⊢
+  intro b hb
+  exact h b (List.mem_filter.1 hb).1
+
+theorem WTs_append (ss : Schemas) (bs bs' : Builders) : WTs ss (bs ++ bs') = (WTs ss bs && WTs ss bs') := by
+  simp [WTs, List.all_append]
+
+
+/-! ### `DeepCopy` keeps well-typedness -/
+
+theorem optWT_deepCopy (ss : Schemas) (root : Ty) (o : Opt) : optWT ss root o.deepCopy = optWT ss root o := by
+  simp [optWT, Opt.deepCopy, Assignment.deepCopy, List.all_map, Function.comp_def,
+    assignmentWT_mapCells ss root o.args zeroCell (fun _ => rfl)]
+
+theorem WT_deepCopy (ss : Schemas) (b : Builder) : WT ss b.deepCopy = WT ss b := by
+  simp [WT, Builder.deepCopy, Assignment.deepCopy, List.all_map, Function.comp_def, optWT_deepCopy,
+    assignmentWT_mapCells ss b.for_.ty b.constructor.args zeroCell (fun _ => rfl)]
+
+theorem optWT_number (ss : Schemas) (root : Ty) (o : Opt) (n : Nat) : optWT ss root (o.number n).1 = optWT ss root o := by
+  rw [← optWT_content, Opt.number_content, optWT_content]
+
+theorem numberOpts_optWT (ss : Schemas) (root : Ty) : ∀ (os : List Opt) (n : Nat),
+    (numberOpts os n).1.all (optWT ss root) = os.all (optWT ss root)
+  | [], n => by simp [numberOpts]
+  | o :: os, n => by simp [numberOpts, optWT_number, numberOpts_optWT ss root os]
+
+/-! ### option rules that store nothing: the loops -/
+
+theorem applyWritesOpts_nil (l : List Opt) : applyWritesOpts [] l = l := rfl
+theorem applyWrites_nil (l : Builders) : applyWrites [] l = l := rfl
+
+/-- Per-builder loop of an option rule whose action stores nothing and maps well-typed options to
+    well-typed options: the other builders are untouched and the processed options are well-typed. -/
+theorem optionLoop_preserves (ss : Schemas) (sel : OSelC) (rule : ORule) (b : Builder) (root : Ty)
+    (hact : ∀ o out, optWT ss root o = true → applyAction ss b o rule = .ok out →
+      out.writes = [] ∧ out.opts.all (optWT ss root) = true) :
+    ∀ (todo done : List Opt) (all : Builders) (n : Nat) (done' : List Opt) (all' : Builders) (n' : Nat),
+      optionLoop ss sel rule b todo [] done all n = .ok (done', all', n') →
+      todo.all (optWT ss root) = true → done.all (optWT ss root) = true →
+      all' = all ∧ done'.all (optWT ss root) = true
+  | [], done, all, n, done', all', n', h, _, hd => by
+    simp [optionLoop] at h
+    obtain ⟨h1, h2, _⟩ := h
+    subst h1 h2
+    exact ⟨rfl, hd⟩
+  | o :: todo, done, all, n, done', all', n', h, ht, hd => by
+    have ht' : optWT ss root o = true ∧ todo.all (optWT ss root) = true := by simpa using ht
+    simp only [optionLoop, applyWritesOpts_nil, List.headD_cons] at h
+    by_cases hs : sel.matches b o = true
+    · simp only [hs, Bool.not_true, Bool.false_eq_true, if_false] at h
+      cases ha : applyAction ss b o rule with
+      | err e => simp [ha] at h
+      | panic s => simp [ha] at h
+      | ok out =>
+        simp only [ha] at h
+        obtain ⟨hw, ho⟩ := hact o out ht'.1 ha
+        rw [hw] at h
+        simp only [List.append_nil, applyWritesOpts_nil, applyWrites_nil] at h
+        refine optionLoop_preserves ss sel rule b root hact todo _ all _ done' all' n' h ht'.2 ?_
+        simp only [List.all_append, hd, Bool.true_and]
+        rw [numberOpts_optWT]; exact ho
+    · have hs' : sel.matches b o = false := by simpa using hs
+      simp only [hs', Bool.not_false, if_true] at h
+      refine optionLoop_preserves ss sel rule b root hact todo _ all n done' all' n' h ht'.2 ?_
+      simp [List.all_append, hd, ht'.1]
+
+theorem WT_setOptions (ss : Schemas) (b : Builder) (os : List Opt) (hb : WT ss b = true)
+    (hos : os.all (optWT ss b.for_.ty) = true) : WT ss { b with options := os } = true := by
+  simp only [WT, Bool.and_eq_true] at hb ⊢
+  exact ⟨hb.1, hos⟩
+
+theorem setNth_all {α : Type} (p : α → Bool) (f : α → α) : ∀ (i : Nat) (l : List α),
+    l.all p = true → (∀ a, l[i]? = some a → p (f a) = true) → (setNth f i l).all p = true
+  | _, [], _, _ => by simp [setNth]
+  | 0, a :: as, h, hf => by
+    have h' : p a = true ∧ as.all p = true := by simpa using h
+    simp [setNth, h'.2, hf a (by simp)]
+  | i + 1, a :: as, h, hf => by
+    have h' : p a = true ∧ as.all p = true := by simpa using h
+    simp only [setNth, List.all_cons, h'.1, Bool.true_and]
+    exact setNth_all p f i as h'.2 (fun x hx => hf x (by simpa using hx))
+
+theorem builderLoop_preserves (ss : Schemas) (sel : OSelC) (rule : ORule)
+    (hact : ∀ b o out, optWT ss b.for_.ty o = true → applyAction ss b o rule = .ok out →
+      out.writes = [] ∧ out.opts.all (optWT ss b.for_.ty) = true) :
+    ∀ (k i : Nat) (all : Builders) (n : Nat) (all' : Builders) (n' : Nat),
+      builderLoop ss sel rule k i all n = .ok (all', n') → WTs ss all = true → WTs ss all' = true
+  | 0, i, all, n, all', n', h, hw => by
+    simp [builderLoop] at h; rw [← h.1]; exact hw
+  | k + 1, i, all, n, all', n', h, hw => by
+    simp only [builderLoop] at h
+    cases hb : all[i]? with
+    | none => simp [hb] at h; rw [← h.1]; exact hw
+    | some b =>
+      simp only [hb] at h
+      cases hl : optionLoop ss sel rule b b.options [] [] all n with
+      | err e => simp [hl] at h
+      | panic s => simp [hl] at h
+      | ok r =>
+        obtain ⟨done, all1, n1⟩ := r
+        simp only [hl] at h
+        have hbw : WT ss b = true := by
+          have := List.all_eq_true.1 hw b (List.mem_of_getElem? hb)
+          exact this
+        have hbo : b.options.all (optWT ss b.for_.ty) = true := by
+          simp only [WT, Bool.and_eq_true] at hbw; exact hbw.2
+        obtain ⟨hall, hdone⟩ := optionLoop_preserves ss sel rule b b.for_.ty (hact b) b.options [] all n done all1 n1 hl hbo (by simp)
+        subst hall
+        refine builderLoop_preserves ss sel rule hact k (i + 1) _ n1 all' n' h ?_
+        simp only [WTs, setOptions]
+        refine setNth_all (WT ss) _ i all1 hw ?_
+        intro a ha
+        rw [hb] at ha
+        injection ha with ha
+        subst ha
+        exact WT_setOptions ss b done hbw hdone
+
+theorem applyORule_preserves (ss : Schemas) (sel : OSelC) (rule : ORule)
+    (hact : ∀ b o out, optWT ss b.for_.ty o = true → applyAction ss b o rule = .ok out →
+      out.writes = [] ∧ out.opts.all (optWT ss b.for_.ty) = true)
+    (st st' : St) (h : applyORule ss sel rule st = .ok st') (hw : WTs ss st.builders = true) :
+    WTs ss st'.builders = true := by
+  simp only [applyORule] at h
+  cases hb : builderLoop ss sel rule st.builders.length 0 st.builders st.next with
+  | err e => simp [hb] at h
+  | panic s => simp [hb] at h
+  | ok r =>
+    obtain ⟨bs, n⟩ := r
+    simp [hb] at h; subst h
+    exact builderLoop_preserves ss sel rule hact _ _ _ _ bs n hb hw
+
+
+/-! ### the rule kinds for which preservation is proved outright -/
+
+/-- option rules that neither store through pointers nor build new assignments -/
+def ORule.simple : ORule → Bool
+  | .omit _ | .rename _ _ | .addComments _ _ | .duplicate _ _ => true
+  | _ => false
+
+/-- builder rules that neither build new assignments nor move assignments between builders -/
+def BRule.simple : BRule → Bool
+  | .omit _ | .rename _ _ | .properties _ _ | .addFactory _ _ | .duplicate _ _ _ => true
+  | _ => false
+
+theorem simple_action_spec (ss : Schemas) (b : Builder) (root : Ty) (o : Opt) (rule : ORule) (out : ActOut)
+    (hs : rule.simple = true) (ho : optWT ss root o = true) (h : applyAction ss b o rule = .ok out) :
+    out.writes = [] ∧ out.opts.all (optWT ss root) = true := by
+  cases rule with
+  | «omit» sel => simp [applyAction] at h; subst h; simp
+  | rename sel as_ =>
+    simp [applyAction] at h; subst h
+    simpa [optWT] using ho
+  | addComments sel cs =>
+    simp [applyAction] at h; subst h
+    simpa [optWT] using ho
+  | duplicate sel as_ =>
+    simp [applyAction] at h; subst h
+    have hd := optWT_deepCopy ss root o
+    rw [ho] at hd
+    have hn : optWT ss root { o.deepCopy with name := as_ } = true := by
+      simpa [optWT] using hd
+    simp [ho, hn]
+  | renameArguments => simp [ORule.simple] at hs
+  | unfoldBoolean => simp [ORule.simple] at hs
+  | structFieldsAsArguments => simp [ORule.simple] at hs
+  | structFieldsAsOptions => simp [ORule.simple] at hs
+  | arrayToAppend => simp [ORule.simple] at hs
+  | mapToIndex => simp [ORule.simple] at hs
+  | disjunctionAsOptions => simp [ORule.simple] at hs
+  | addAssignment => simp [ORule.simple] at hs
+  | empty => simp [ORule.simple] at hs
+
+theorem All2_WTs (ss : Schemas) {R : Builder → Builder → Prop} (hR : ∀ b b', R b b' → WT ss b = true → WT ss b' = true) :
+    ∀ {bs bs' : Builders}, All2 R bs bs' → WTs ss bs = true → WTs ss bs' = true
+  | [], [], _, _ => rfl
+  | b :: bs, b' :: bs', h, hw => by
+    have hw' : WT ss b = true ∧ WTs ss bs = true := by simpa [WTs] using hw
+    have ih := All2_WTs ss hR h.2 hw'.2
+    simp only [WTs, List.all_cons, Bool.and_eq_true] at ih ⊢
+    exact ⟨hR b b' h.1 hw'.1, ih⟩
+  | [], _ :: _, h, _ => by simp [All2] at h
+  | _ :: _, [], h, _ => by simp [All2] at h
+
+theorem simple_brule_preserves (pkg : String) (ss : Schemas) (bs bs' : Builders) (r : BRule)
+    (hs : r.simple = true) (h : applyBRule pkg ss bs r = .ok bs') (hw : WTs ss bs = true) : WTs ss bs' = true := by
+  cases r with
+  | «omit» sel =>
+    obtain ⟨h1, _⟩ := filterO_spec _ bs bs' h
+    rw [h1]; exact WTs_filter ss _ bs hw
+  | rename sel as_ =>
+    refine All2_WTs ss ?_ (mapSelected_spec _ _ bs bs' h) hw
+    intro b b' hr hb
+    rcases hr with ⟨_, hg⟩ | ⟨_, rfl⟩
+    · simp at hg; subst hg; rw [WT_congr ss rfl rfl rfl]; exact hb
+    · exact hb
+  | properties sel set =>
+    refine All2_WTs ss ?_ (mapSelected_spec _ _ bs bs' h) hw
+    intro b b' hr hb
+    rcases hr with ⟨_, hg⟩ | ⟨_, rfl⟩
+    · simp at hg; subst hg; rw [WT_congr ss rfl rfl rfl]; exact hb
+    · exact hb
+  | addFactory sel f =>
+    refine All2_WTs ss ?_ (mapSelected_spec _ _ bs bs' h) hw
+    intro b b' hr hb
+    rcases hr with ⟨_, hg⟩ | ⟨_, rfl⟩
+    · by_cases hc : (!b.constructor.args.isEmpty) = true
+      · simp [hc] at hg
+      · simp [hc] at hg; subst hg; rw [WT_congr ss rfl rfl rfl]; exact hb
+    · exact hb
+  | duplicate sel as_ ex =>
+    simp only [applyBRule] at h
+    cases hf : filterO (sel.matches pkg ss) bs with
+    | err e => simp [hf] at h
+    | panic s => simp [hf] at h
+    | ok selected =>
+      simp only [hf] at h
+      injection h with h
+      subst h
+      rw [WTs_append, hw, Bool.true_and]
+      have hsel : ∀ b ∈ selected, WT ss b = true := by
+        intro b hb
+        rw [(filterO_spec _ bs selected hf).1] at hb
+        exact List.all_eq_true.1 hw b (List.mem_filter.1 hb).1
+      simp only [WTs, List.all_map, List.all_eq_true]
+      intro b hb
+      have hd : WT ss b.deepCopy = true := by rw [WT_deepCopy]; exact hsel b hb
+      simp only [Function.comp]
+      split
+      · simp only [WT, Bool.and_eq_true, List.all_eq_true] at hd ⊢
+        exact hd
+      · simp only [WT, Bool.and_eq_true, List.all_eq_true] at hd ⊢
+        exact ⟨hd.1, fun o ho => hd.2 o (List.mem_filter.1 ho).1⟩
+  | mergeInto => simp [BRule.simple] at hs
+  | compose => simp [BRule.simple] at hs
+  | «initialize» => simp [BRule.simple] at hs
+  | promote => simp [BRule.simple] at hs
+  | addOption => simp [BRule.simple] at hs
+  | empty => simp [BRule.simple] at hs
+
+theorem applyBRules_preserves (ss : Schemas) : ∀ (rules : List (String × BRule)) (st st' : St),
+    (∀ r ∈ rules, r.2.simple = true) → applyBRules ss rules st = .ok st' →
+    WTs ss st.builders = true → WTs ss st'.builders = true
+  | [], st, st', _, h, hw => by simp [applyBRules] at h; subst h; exact hw
+  | (pkg, r) :: rest, st, st', hs, h, hw => by
+    simp only [applyBRules] at h
+    cases hr : applyBRule pkg ss st.builders r with
+    | err e => simp [hr] at h
+    | panic s => simp [hr] at h
+    | ok bs =>
+      simp only [hr] at h
+      have h1 := simple_brule_preserves pkg ss st.builders bs r (hs (pkg, r) (by simp)) hr hw
+      exact applyBRules_preserves ss rest _ st' (fun x hx => hs x (by simp [hx])) h (by rw [WTs_renumber]; exact h1)
+
+theorem applyORules_preserves (ss : Schemas) : ∀ (rules : List (OSelC × ORule)) (st st' : St),
+    (∀ r ∈ rules, r.2.simple = true) → applyORules ss rules st = .ok st' →
+    WTs ss st.builders = true → WTs ss st'.builders = true
+  | [], st, st', _, h, hw => by
+    simp [applyORules] at h; subst h
+    exact WTs_filter ss _ _ hw
+  | (sel, r) :: rest, st, st', hs, h, hw => by
+    simp only [applyORules] at h
+    cases hr : applyORule ss sel r st with
+    | err e => simp [hr] at h
+    | panic s => simp [hr] at h
+    | ok st1 =>
+      simp only [hr] at h
+      have hsr := hs (sel, r) (by simp)
+      have h1 := applyORule_preserves ss sel r
+        (fun b o out ho ha => simple_action_spec ss b b.for_.ty o r out hsr ho ha) st st1 hr hw
+      exact applyORules_preserves ss rest st1 st' (fun x hx => hs x (by simp [hx])) h h1
+
+
+/-! ### loading keeps the rules -/
+
+theorem compileORules_mem (pkg lang : String) : ∀ (rs : List ORule) (out : List (String × OSelC × ORule)),
+    compileORules pkg lang rs = .ok out → ∀ x ∈ out, x.2.2 ∈ rs
+  | [], out, h => by simp [compileORules] at h; subst h; simp
+  | r :: rest, out, h => by
+    simp only [compileORules] at h
+    split at h
+    · simp at h
+    · cases hc : r.sel.compile pkg with
+      | err e => simp [hc] at h
+      | panic s => simp [hc] at h
+      | ok sel =>
+        simp only [hc] at h
+        cases hr : compileORules pkg lang rest with
+        | err e => simp [hr] at h
+        | panic s => simp [hr] at h
+        | ok rs =>
+          simp [hr] at h; subst h
+          intro x hx
+          rcases List.mem_cons.1 hx with rfl | hx
+          · simp
+          · exact List.mem_cons_of_mem _ (compileORules_mem pkg lang rest rs hr x hx)
+
+theorem loadFile_mem (f : VFile) (l : Loaded) (h : loadFile f = .ok l) :
+    (∀ x ∈ l.brules, x.2.2 ∈ f.builders) ∧ (∀ x ∈ l.orules, x.2.2 ∈ f.options) := by
+  unfold loadFile at h
+  split at h
+  · simp at h
+  · split at h
+    · simp at h
+    · cases hc : compileORules f.pkg f.language f.options with
+      | err e => simp [hc] at h
+      | panic s => simp [hc] at h
+      | ok os =>
+        simp [hc] at h; subst h
+        refine ⟨?_, compileORules_mem _ _ _ os hc⟩
+        intro x hx
+        simp only [List.mem_map] at hx
+        obtain ⟨r, hr, rfl⟩ := hx
+        exact hr
+
+theorem loadFiles_mem : ∀ (fs : List VFile) (l : Loaded), loadFiles fs = .ok l →
+    (∀ x ∈ l.brules, ∃ f ∈ fs, x.2.2 ∈ f.builders) ∧ (∀ x ∈ l.orules, ∃ f ∈ fs, x.2.2 ∈ f.options)
+  | [], l, h => by simp [loadFiles] at h; subst h; simp
+  | f :: rest, l, h => by
+    simp only [loadFiles] at h
+    cases hf : loadFile f with
+    | err e => simp [hf] at h
+    | panic s => simp [hf] at h
+    | ok lf =>
+      simp only [hf] at h
+      cases hr : loadFiles rest with
+      | err e => simp [hr] at h
+      | panic s => simp [hr] at h
+      | ok lr =>
+        simp [hr] at h; subst h
+        obtain ⟨hb, ho⟩ := loadFile_mem f lf hf
+        obtain ⟨ihb, iho⟩ := loadFiles_mem rest lr hr
+        constructor
+        · intro x hx
+          rcases List.mem_append.1 hx with hx | hx
+          · exact ⟨f, by simp, hb x hx⟩
+          · obtain ⟨g, hg, hxg⟩ := ihb x hx
+            exact ⟨g, by simp [hg], hxg⟩
+        · intro x hx
+          rcases List.mem_append.1 hx with hx | hx
+          · exact ⟨f, by simp, ho x hx⟩
+          · obtain ⟨g, hg, hxg⟩ := iho x hx
+            exact ⟨g, by simp [hg], hxg⟩
+
 end Cog.Builder
